@@ -292,7 +292,7 @@ class World:
     PROBES_EXPECTED = [
         "overwrite", "overwrite-shorter", "overwrite-other-kind", "torn-file-load", "semantic-compared", "dict-roundtrip",
         "set-roundtrip", "custom-gate", "wrapper-depth>=3", "indexed-symbol", "sympy-named-symbol", "empty-circuit",
-        "idle-qubits", "custom-gate-alt-definition", "numeric-literal-named-symbol", "via-handle", "via-bytes", "via-pathlike", "float-param", "exp-wrapper", "pow-wrapper",
+        "idle-qubits", "custom-gate-alt-definition", "numeric-literal-named-symbol", "external-write", "via-handle", "via-bytes", "via-pathlike", "float-param", "exp-wrapper", "pow-wrapper",
     ]
 
     # ------------------------------------------------------------ generation
@@ -381,9 +381,16 @@ class World:
                 f = self._fault(r, cfg, LOAD_FAULTS)
                 if f:
                     s["fault"] = f
-            else:
+            elif k < 0.9:
                 kind, val = self._gen_value(r, cfg)
                 s = {"op": "dict_roundtrip", "args": {"kind": kind, "value": val, "text": r.random() < 0.8}}
+            else:
+                if recent and r.random() < 0.3:
+                    kind, val = r.choice(recent)
+                else:
+                    kind, val = self._gen_value(r, cfg)
+                s = {"op": "write_text", "args": {"kind": kind, "value": val, "path": path, "indent": r.choice([None, 0, 2, 4]),
+                                                  "sort_keys": r.random() < 0.5}}
             steps.append(s)
         for s in steps:
             s["client"] = r.randrange(cfg["clients"])
@@ -504,6 +511,15 @@ class World:
                 after = len(store.fs.files.get(a["path"], b""))
                 if before and after < before:
                     ctx.probe("overwrite-shorter")
+            return
+        if op == "write_text":
+            S = st["S"]
+            ok, d = call(S.to_dict, obj)
+            if not ok:
+                ctx.fail("unexpected-reject", f"to_dict:{type(d).__name__}", f"to_dict raised {type(d).__name__}: {d}")
+            text = json.dumps(d, indent=a["indent"], sort_keys=a["sort_keys"])
+            st["store"].external_write(ctx, a["kind"], value, a["path"], text)
+            ctx.nontrivial = True
             return
         if op == "dict_roundtrip":
             S = st["S"]
